@@ -75,6 +75,10 @@ func (i ImportNames) TypeName(t types.Type) string {
 	case *types.Basic:
 		return typ.Name()
 	case *types.Named:
+		if typ.TypeArgs().Len() > 0 {
+			// An instantiated generic type is written with its type arguments: Box[int].
+			return i.qualifiedString(t)
+		}
 		if typ.Obj().Pkg() == nil {
 			// Universe types such as "error" belong to no package.
 			return typ.Obj().Name()
@@ -87,13 +91,19 @@ func (i ImportNames) TypeName(t types.Type) string {
 		// Composite types (slices, maps, funcs, ...) may mention named types of other
 		// packages: qualify them with the names the setup file imports them under, not with
 		// their full import paths as Type.String() does.
-		return types.TypeString(t, func(pkg *types.Package) string {
-			if pkgName, ok := i[pkg.Path()]; ok {
-				return pkgName
-			}
-			return ""
-		})
+		return i.qualifiedString(t)
 	}
+}
+
+// qualifiedString prints the type with every package-level name qualified by the name the
+// setup file imports its package under.
+func (i ImportNames) qualifiedString(t types.Type) string {
+	return types.TypeString(t, func(pkg *types.Package) string {
+		if pkgName, ok := i[pkg.Path()]; ok {
+			return pkgName
+		}
+		return ""
+	})
 }
 
 // IsExternal returns true if the given type is defined in a different package than
